@@ -119,3 +119,92 @@ func VerifHarness_C05_LongSharedPrefix() {
 }
 
 func VerifHarness_C05_IndexedBatch3_Thorough() { hIndexedBatch(2, 3) }
+
+// hBatchIterBoundsChange: an iterator over an indexed batch and the DB, built
+// by the real DB.newIter (batch level, batchskl iterator, levelIters over stub
+// tables), is given bounds, scanned to exhaustion in both directions (so that
+// every level has met its bounds), then given other bounds - each side nil or
+// a key - and scanned again: it still shows the batch laid over the DB, inside
+// the new bounds.
+func hBatchIterBoundsChange(nCommitted, nBatch int) {
+	committed := hHistory(sym.Choose("committed", nCommitted+1), []base.InternalKeyKind{hKSet})
+	for i := range committed {
+		committed[i].level = 1
+	}
+	hDBLean = true
+	d := hDBOver(hBuildLevels(committed, 2), base.SeqNum(len(committed)+1))
+	b := newIndexedBatch(d, base.DefaultComparer)
+	nb := 1 + sym.Choose("batch-ops", nBatch)
+	ops := hHistory(nb, []base.InternalKeyKind{hKSet, hKDel})
+	for _, w := range ops {
+		var err error
+		if w.kind == hKSet {
+			err = b.Set(hKeyBytes(w.key), []byte{w.val}, nil)
+		} else {
+			err = b.Delete(hKeyBytes(w.key), nil)
+		}
+		sym.Assert(err == nil, "batch-op")
+	}
+	all := append([]hWrite(nil), committed...)
+	for i, w := range ops {
+		w.seq = base.SeqNum(len(committed) + 1 + i)
+		all = append(all, w)
+	}
+
+	bound := func(name string) (k byte, set bool) {
+		set = sym.Bool(name + "-set")
+		if set {
+			k = sym.U8(name)
+			sym.Assume(sym.And(k >= hKeyLo, k <= hKeyHi+1))
+		}
+		return
+	}
+	asBytes := func(k byte, set bool) []byte {
+		if !set {
+			return nil
+		}
+		return []byte{k}
+	}
+	scanCheck := func(it *Iterator, lo byte, loSet bool, hi byte, hiSet bool, tag string) {
+		var out []hOut
+		for valid := it.First(); valid; valid = it.Next() {
+			out = append(out, hCur(it))
+			sym.Assert(len(out) <= 3, tag+"-scan-terminates")
+		}
+		sym.Assert(it.Error() == nil, tag+"-no-error")
+		n := 0
+		for valid := it.Last(); valid; valid = it.Prev() {
+			n++
+			sym.Assert(n <= 3, tag+"-rscan-terminates")
+		}
+		sym.Assert(n == len(out), tag+"-rscan-same-length")
+		for k := hKeyLo; k <= hKeyHi; k++ {
+			want := hModelGet(all, k, base.SeqNumMax)
+			inside := sym.And(sym.Or(!loSet, k >= lo), sym.Or(!hiSet, k < hi))
+			found, valueOK := false, true
+			for _, o := range out {
+				here := o.key == k
+				found = sym.Or(found, here)
+				valueOK = sym.And(valueOK, sym.Implies(here, sym.And(o.packed == want.packed, o.n == want.n)))
+			}
+			sym.Assert(found == sym.And(inside, want.present), tag+"-presence")
+			sym.Assert(sym.Implies(found, valueOK), tag+"-value")
+		}
+	}
+
+	lo, loSet := bound("lower")
+	hi, hiSet := bound("upper")
+	sym.Assume(sym.Or(sym.Or(!loSet, !hiSet), lo < hi))
+	it := d.newIter(nil, b, newIterOpts{}, &IterOptions{LowerBound: asBytes(lo, loSet), UpperBound: asBytes(hi, hiSet)})
+	scanCheck(it, lo, loSet, hi, hiSet, "first-bounds")
+
+	lo2, loSet2 := bound("new-lower")
+	hi2, hiSet2 := bound("new-upper")
+	sym.Assume(sym.Or(sym.Or(!loSet2, !hiSet2), lo2 < hi2))
+	it.SetBounds(asBytes(lo2, loSet2), asBytes(hi2, hiSet2))
+	scanCheck(it, lo2, loSet2, hi2, hiSet2, "new-bounds")
+	sym.Assert(it.Close() == nil, "close")
+	sym.Reach("bounds-changed")
+}
+
+func VerifHarness_C05_BatchIterBoundsChange() { hBatchIterBoundsChange(1, 2) }
